@@ -110,5 +110,28 @@ theorem isImpliedBy_iff (self other : Bdd α) (hs : self.WF) (ho : other.WF) :
     · simp
     · simp [this hb']
 
+/-- the denotation of a diagram only looks at its inputs -/
+theorem den_congr (b : Bdd α) (ρ σ : α → Bool) (h : ∀ x ∈ b.inputs, ρ x = σ x) : b.den ρ = b.den σ := by
+  simp only [den]; congr 1; exact List.map_congr_left h
+
+/-- a well-formed diagram is determined by its inputs and its function (canonicity, in the semantic
+    model of lib-bdd) -/
+theorem eq_of_den (x y : Bdd α) (hx : x.WF) (hy : y.WF) (hin : x.inputs = y.inputs)
+    (hden : ∀ ρ, x.den ρ = y.den ρ) : x = y := by
+  have hnd := hx.1.nodup
+  have hn : x.inner.n = y.inner.n := by rw [hx.2.1, hy.2.1, hin]
+  have : x.inner = y.inner := by
+    apply Inner.ext_of_eval _ _ hx.2.2 hy.2.2 hn
+    intro p hp
+    have hpl : p.length = x.inputs.length := by rw [hp, hx.2.1]
+    have := hden (complete (x.inputs.zip p) false)
+    simp only [Bdd.den] at this
+    rw [← hin, map_complete_zip x.inputs p hpl hnd] at this
+    exact this
+  cases x; cases y
+  simp only at hin this
+  subst hin; subst this
+  rfl
+
 end Bdd
 end BoolFn
